@@ -314,10 +314,6 @@ func TestCMPPStatusReport(t *testing.T) {
 		rec.Sample("cmpp-report", ref.ToJ(b.Spec, v))
 		pc := gen.PCase{Vals: ref.ToJ(b.Spec, v)}
 		rec.ReportSeq(t, "roundtrip", pc, func() *vk.Violation { return gen.RoundTrip(b, v) })
-		// and the layout: 8 + 7 + 10 + 10 + 21 + 4 octets, NUL padded, octet for octet
-		if viol := gen.LayoutEncode(b, v); viol != nil {
-			rec.Report(t, "roundtrip", viol)
-		}
 		if img, err := b.Fill(v).IEncode(); err == nil && len(img) != 60 {
 			rec.Report(t, "roundtrip", vk.Violf("cmpp.SubPduDeliveryContent/length", nil, "status report body has %d octets, specification says 60", len(img)))
 		}
